@@ -289,6 +289,9 @@ func (p *Proxy) handleHTTP(r responder.Responder, proxyReq *http.Request) error 
 	return p.processRequest(r, proxyReq, key, clientHd)
 }
 
+// How much unread request content is skipped on a tunnel before the next request is read.
+const maxUnreadRequestBody = 256 << 10
+
 func (p *Proxy) handleCONNECT(r responder.Responder, proxyReq *http.Request) error {
 	slog.Info("Handling CONNECT request", "url", proxyReq.URL, "remote_addr", proxyReq.RemoteAddr)
 
@@ -365,6 +368,16 @@ func (p *Proxy) handleCONNECT(r responder.Responder, proxyReq *http.Request) err
 				// another exchange can follow. Close it so the client sees the failure.
 				break
 			}
+		}
+
+		// Content of the request that nobody read (it was answered from the cache, or refused)
+		// is still in the tunnel and must not be taken for the start of the next request.
+		// Like net/http's server, skip a moderate amount and give up the connection otherwise.
+		// (A body the upstream transport has closed was read to its end by that Close.)
+		n, err := io.Copy(io.Discard, io.LimitReader(req.Body, maxUnreadRequestBody+1))
+		if (err != nil && !errors.Is(err, http.ErrBodyReadAfterClose)) || n > maxUnreadRequestBody {
+			slog.Debug("Closing CONNECT tunnel with unread request content", "host", proxyReq.Host, "skipped", n, "error", err)
+			break
 		}
 	}
 
